@@ -631,7 +631,33 @@ impl Session {
                 (ok as u8).to_string()
             }),
         };
-        format!("tags={} words={} rt={}", hex(tags), hex(&words.join(" ")), rt)
+        // the tag section of the re-imported game's own export must equal the exported one (the metadata map itself cannot be
+        // listed through the public API; `as_pgn` prints all of it)
+        let rtags = match catch(|| Game::from_pgn(&pgn)) {
+            None => "panic".to_string(),
+            Some(Err(_)) => "err".to_string(),
+            Some(Ok(g2)) => g(|| ((tag_section(&g2.as_pgn()) == tags) as u8).to_string()),
+        };
+        format!("tags={} words={} rt={} rtags={}", hex(tags), hex(&words.join(" ")), rt, rtags)
+    }
+
+    /// `g.tag`: `get_metadata_mut().set_value(key, value)`
+    pub fn op_tag(&mut self, key: &str, val: &str) -> String {
+        match self.game.as_mut() {
+            None => "r=nosession".to_string(),
+            Some(gm) => match catch(std::panic::AssertUnwindSafe(|| gm.get_metadata_mut().set_value(key.to_string(), val.to_string()))) {
+                Some(()) => "r=ok".to_string(),
+                None => "r=panic".to_string(),
+            },
+        }
+    }
+}
+
+/// the part of a PGN text up to and including the newline before the first blank line
+pub fn tag_section(pgn: &str) -> &str {
+    match pgn.find("\n\n") {
+        Some(i) => &pgn[..i + 1],
+        None => pgn,
     }
 }
 
@@ -643,7 +669,8 @@ pub fn obs_frompgn(text: &str) -> (String, &'static str) {
             let st = g(|| gstatus_text(gm.get_game_status()).to_string());
             let n = g(|| gm.get_action_history().get_moves().len().to_string());
             let fen = g(|| gm.as_fen().replace(' ', "_"));
-            (format!("r=ok st={st} n={n} fen={fen}"), "ok")
+            let tags = g(|| hex(tag_section(&gm.as_pgn())));
+            (format!("r=ok st={st} n={n} fen={fen} tags={tags}"), "ok")
         }
     }
 }
